@@ -52,7 +52,7 @@ func msObserve(pa *ParsedAsm, name string) map[string]interface{} {
 		if i+1 < len(pa.Lines) {
 			nx := pa.Lines[i+1]
 			isT := nx["k"] == "ins" && nx["op"] == "map_script_2" || nx["k"] == "data" && nx["dir"] == ".2byte" && nx["rest"] == "0"
-			if !isT || !strings.HasPrefix(ln["name"].(string), name+"_") {
+			if !isT {
 				continue
 			}
 			rows := []map[string]interface{}{}
